@@ -6,10 +6,11 @@ WT=$1; M=$2
 export GOFLAGS=-mod=mod GOPROXY=off
 cd $WT && git checkout -q -- rolling-shutter && find $WT -name zz_contracts_verif.go -delete
 head -12 $M/demo_test.go | grep -i "copy\|run\|dir" | head -5
-dest=$(grep -o 'rolling-shutter/[a-zA-Z0-9_/]*' $M/demo_test.go | head -1)
-[ -z "$dest" ] && dest=$(grep -o 'keyper[a-z/]*\|p2p[a-z/]*\|p2pmsg' $M/demo_test.go | head -1)
-dest=${dest#rolling-shutter/}; dest=${dest%/}
-runpat=$(grep -o 'TestSeeded[A-Za-z0-9_]*' $M/demo_test.go | head -1)
+line=$(grep -m1 "go test" $M/demo_test.go)
+dest=$(echo "$line" | grep -o ' \./[a-zA-Z0-9_/]*' | tail -1 | sed 's#^ \./##; s#/$##')
+runpat=$(echo "$line" | grep -o "\-run '[^']*'\|-run [A-Za-z0-9_^$]*" | head -1 | sed "s/-run //; s/'//g")
+if [ -z "$dest" ]; then dest=$(grep -o 'rolling-shutter/[a-zA-Z0-9_/]*' $M/demo_test.go | head -1); dest=${dest#rolling-shutter/}; dest=${dest%/}; fi
+[ -z "$runpat" ] && runpat=$(grep -o 'TestSeeded[A-Za-z0-9_]*' $M/demo_test.go | head -1)
 echo "dest=$dest run=$runpat"
 cp $M/demo_test.go $WT/rolling-shutter/$dest/zz_seed_demo_test.go
 cd $WT/rolling-shutter
